@@ -309,9 +309,29 @@ func c18Cisco(c *Ctx, tp *tape.Tape, kind string) *Failure {
 		files["router"] = pre4 + "ip access-list extended " + aclName + "\n" + render(v4, "", false) +
 			intf("ip address 10.0.6.1 255.255.255.0", "ip access-group "+aclName+" in")
 		if withRaw {
-			s := preRaw + "ip access-list extended " + rawName + "\n" + render(raw, "", false)
+			// The same raw ACL may be written in several blocks.
+			head := "ip access-list extended " + rawName + "\n"
+			s := preRaw + head
+			nPre := len(raw) - nApp
+			if cut := tp.Next(3); cut > 0 && nPre >= 2 {
+				var a, b []mEntry
+				for _, e := range raw[:nPre] {
+					if e.Idx < nPre/2 {
+						a = append(a, e)
+					} else {
+						b = append(b, e)
+					}
+				}
+				s += render(a, "", false) + head + render(b, "", false)
+			} else {
+				s += render(raw, "", false)
+			}
 			if nApp > 0 {
-				s += "[APPEND]\n" + render(raw, "", true)
+				s += "[APPEND]\n"
+				if tp.Next(2) == 1 {
+					s += head
+				}
+				s += render(raw, "", true)
 			}
 			switch trouble {
 			case tUnbound:
@@ -320,7 +340,7 @@ func c18Cisco(c *Ctx, tp *tape.Tape, kind string) *Failure {
 			case tUnknownCmd:
 				s += "unexpected foo\n" + intf("ip access-group "+rawName+" in")
 			default:
-				s += intf("ip access-group "+rawName+" in")
+				s += intf("ip access-group " + rawName + " in")
 			}
 			files["router.raw"] = s
 		}
@@ -535,63 +555,88 @@ func c18Linux(c *Ctx, tp *tape.Tape) *Failure {
 
 func c18Pan(c *Ctx, tp *tape.Tape) *Failure {
 	uniq := 0
-	v := &gen.PVsys{Name: "vsys1", Display: "managed-by-Netspoc"}
-	mk := func(part, prefix string, n, nDrop int, raw, app bool, idx0 int) ([]mEntry, []gen.PRule) {
-		var l []mEntry
-		var rules []gen.PRule
+	vsysNames := []string{"vsys1", "vsys2"}
+	type part struct {
+		entries map[string][]mEntry
+		rules   map[string][]gen.PRule
+	}
+	newPart := func() *part { return &part{map[string][]mEntry{}, map[string][]gen.PRule{}} }
+	// Each part speaks about vsys1, vsys2 or both.
+	mk := func(pt *part, vs, name, prefix string, n, nDrop int, raw, app bool) {
+		idx0 := len(pt.entries[vs])
 		for i := 0; i < n+nDrop; i++ {
 			uniq++
 			act := "allow"
 			if i >= n {
 				act = "drop"
 			}
-			name := fmt.Sprintf("%s%d", prefix, uniq)
-			r := gen.PRule{Name: name, Action: act, From: "z1", To: "z2", Src: []string{"any"}, Dst: []string{"any"}, Svc: []string{"any"},
-				LogEnd: true, Extra: fmt.Sprintf("<description>%s-%s</description>", part, name), Append: app}
-			rules = append(rules, r)
-			l = append(l, mEntry{Part: part, Idx: idx0 + i, Permit: i < n, Raw: raw, App: app, Text: part + "-" + name})
+			rn := fmt.Sprintf("%s%d", prefix, uniq)
+			r := gen.PRule{Name: rn, Action: act, From: "z1", To: "z2", Src: []string{"any"}, Dst: []string{"any"}, Svc: []string{"any"},
+				LogEnd: true, Extra: fmt.Sprintf("<description>%s-%s</description>", name, rn), Append: app}
+			pt.rules[vs] = append(pt.rules[vs], r)
+			pt.entries[vs] = append(pt.entries[vs], mEntry{Part: name, Idx: idx0 + i, Permit: i < n, Raw: raw, App: app, Text: name + "-" + rn})
 		}
-		return l, rules
 	}
-	e4, r4 := mk("v4", "r", tp.Next(4), tp.Next(3), false, false, 0)
-	e6, r6 := mk("v6", "r", tp.Next(3), tp.Next(2), false, false, 0)
-	eraw, rraw := mk("raw", "raw", tp.Next(3), tp.Next(2), true, false, 0)
-	eapp, rapp := mk("raw", "rawapp", tp.Next(3), tp.Next(2), true, true, len(eraw))
-	eraw = append(eraw, eapp...)
-	rraw = append(rraw, rapp...)
+	p4, p6, praw := newPart(), newPart(), newPart()
+	for _, vs := range vsysNames {
+		// 0: this part has no entry for the vsys at all.
+		if tp.Next(4) != 0 || vs == "vsys1" {
+			mk(p4, vs, "v4", "r", tp.Next(4), tp.Next(3), false, false)
+		}
+		if tp.Next(3) != 0 {
+			mk(p6, vs, "v6", "r", tp.Next(3), tp.Next(2), false, false)
+		}
+		if tp.Next(3) != 0 {
+			mk(praw, vs, "raw", "raw", tp.Next(3), tp.Next(2), true, false)
+			mk(praw, vs, "raw", "rawapp", tp.Next(3), tp.Next(2), true, true)
+		}
+	}
 	const (
 		tNone = iota
 		tRuleClash
 		tAddrClash
 	)
 	trouble := tNone
+	r4, rraw := p4.rules["vsys1"], praw.rules["vsys1"]
 	if len(rraw) > 0 && len(r4) > 0 && tp.Next(4) == 0 {
 		trouble = 1 + tp.Next(2)
 	}
-	vr := *v
+	var addr4, addrRaw []gen.PAddr
 	switch trouble {
 	case tRuleClash:
 		// A raw rule is named like a Netspoc rule.
 		rraw[0].Name = r4[0].Name
 	case tAddrClash:
-		v.Addrs = []gen.PAddr{{Name: "IP_10.1.1.10", IP: "10.1.1.10/32"}}
+		addr4 = []gen.PAddr{{Name: "IP_10.1.1.10", IP: "10.1.1.10/32"}}
 		r4[0].Src = []string{"IP_10.1.1.10"}
-		vr.Addrs = []gen.PAddr{{Name: "IP_10.1.1.10", IP: "10.9.9.9/32"}}
+		addrRaw = []gen.PAddr{{Name: "IP_10.1.1.10", IP: "10.9.9.9/32"}}
 		rraw[0].Src = []string{"IP_10.1.1.10"}
 	}
+	render := func(pt *part, addrs []gen.PAddr) string {
+		var l []*gen.PVsys
+		for _, vs := range vsysNames {
+			if _, ok := pt.rules[vs]; !ok {
+				continue
+			}
+			v := &gen.PVsys{Name: vs, Display: "managed-by-Netspoc", Rules: pt.rules[vs]}
+			if vs == "vsys1" {
+				v.Addrs = addrs
+			}
+			l = append(l, v)
+		}
+		if len(l) == 0 {
+			return ""
+		}
+		return gen.PanNetspocXML(l)
+	}
 	files := map[string]string{}
-	v.Rules = r4
-	files["router"] = gen.PanNetspocXML([]*gen.PVsys{v})
-	if len(r6) > 0 {
-		v6 := gen.PVsys{Name: v.Name, Display: v.Display, Rules: r6}
-		files["ipv6/router"] = gen.PanNetspocXML([]*gen.PVsys{&v6})
+	for name, txt := range map[string]string{"router": render(p4, addr4), "ipv6/router": render(p6, nil), "router.raw": render(praw, addrRaw)} {
+		if txt != "" {
+			files[name] = txt
+		}
 	}
-	if len(rraw) > 0 {
-		vr.Rules = rraw
-		files["router.raw"] = gen.PanNetspocXML([]*gen.PVsys{&vr})
-	}
-	// Empty device: the vsys without rules.
-	empty := &gen.PConf{Hostname: "router", Vsys: []*gen.PVsys{{Name: "vsys1", Display: "managed-by-Netspoc"}}}
+	// Empty device: both vsys without rules.
+	empty := &gen.PConf{Hostname: "router", Vsys: []*gen.PVsys{{Name: "vsys1", Display: "managed-by-Netspoc"}, {Name: "vsys2", Display: "managed-by-Netspoc"}}}
 	cfg, err := panosdev.ParseXML(gen.PanDeviceXML(empty, 0))
 	if err != nil {
 		c.HarnessError("device xml: %v", err)
@@ -616,31 +661,36 @@ func c18Pan(c *Ctx, tp *tape.Tape) *Failure {
 		c.Count("not_accepted:"+firstWords(errorLine(r.Res.Stderr), 9), 1)
 		return nil
 	}
-	if trouble == tAddrClash && !strings.Contains(r.Res.Stderr, "WARNING>>>") {
+	if trouble == tAddrClash && !strings.Contains(r.Res.Stderr, "WARNING>>>") && !c.NoteKnown("PAN-OS|name-clash-silent|raw") {
 		return fail("name-clash-silent", "raw", "raw and Netspoc define address IP_10.1.1.10 differently; accepted without error or warning")
 	}
-	var got []string
+	got := map[string][]string{}
 	for _, vs := range panVsysOf(node.Cand) {
 		for _, ru := range vs.Path("rulebase", "security", "rules").KidsOf("entry") {
 			if dsc := ru.Kid("description", ""); dsc != nil {
-				got = append(got, dsc.Text)
+				got[vs.Name] = append(got[vs.Name], dsc.Text)
 			} else {
-				got = append(got, "name:"+ru.Name)
+				got[vs.Name] = append(got[vs.Name], "name:"+ru.Name)
 			}
 		}
-	}
-	var parts []mEntry
-	for _, l := range [][]mEntry{e4, e6, eraw} {
-		parts = append(parts, l...)
 	}
 	c.NonTrivial(fmt.Sprint(files))
 	c.Sample(map[string]any{"kind": "PAN-OS", "effective_rulebase": got})
 	in["effective_rulebase"] = got
-	if k, part, msg := judgeMerge(parts, got, true, r.Res.Stderr); k != "" {
-		if trouble == tRuleClash && k == "silent-drop" {
-			k = "name-clash-silent"
+	for _, vs := range vsysNames {
+		var parts []mEntry
+		for _, pt := range []*part{p4, p6, praw} {
+			parts = append(parts, pt.entries[vs]...)
 		}
-		return fail(k, part, msg)
+		if k, part, msg := judgeMerge(parts, got[vs], true, r.Res.Stderr); k != "" {
+			if trouble == tRuleClash && k == "silent-drop" {
+				k = "name-clash-silent"
+			}
+			if c.NoteKnown(fmt.Sprintf("PAN-OS|%s|%s", k, part)) {
+				continue
+			}
+			return fail(k, part, vs+": "+msg)
+		}
 	}
 	return nil
 }
